@@ -1138,6 +1138,10 @@ def main(tier=None, replay=None):
         data = json.load(open(replay))["data"]
         if data["object"] == "make_key":
             bad = replay_make_key(data)
+        elif str(data["object"]).startswith("point_"):
+            import x02
+            with x02.MemoDynsys(), x02.CacheRecorder() as rec:
+                bad = x02.replay_one(x02.Fx(), rec, data)
         else:
             fx = Fx()
             with MemoDynsys(), CacheRecorder() as rec:
@@ -1198,6 +1202,11 @@ def main(tier=None, replay=None):
         "stamps are hashes of the exact bytes (no rounding): fresh twins were bit-reproducible in this process "
         "(re-checked on a sample at the end of every run)",
     ]
+    # the libration point (one of the objects the statement names) with its full operation alphabet: PointObject.tla, worlds at
+    # L1 (with the Hamiltonian layer), L3 (where the options are observable) and L4 (triangular service); see harness/x02.py
+    import x02
+    # quick tier: L3 and L4 (linear layer, options, persistence: seconds); the L1 world with the Hamiltonian layer (3 min) is thorough
+    x02.run(ck, rnd, x02.Fx(), {"l3", "tri"} if ck.quick else {"point", "l3", "tri"})
     return ck.finish()
 
 
